@@ -183,6 +183,22 @@ func pexSearch(res *vh.Result) {
 		var st peer.VerifPex
 		told := map[string]bool{}    // what the remote currently believes
 		current := map[string]bool{} // the real peer set
+		// every delta handed to the writer, as returned (possibly aliasing
+		// internal buffers) and as it was at that moment: a message sitting in
+		// the writer channel must not change when later events arrive
+		type sentMsg struct {
+			add, del         []pex.Peer
+			addCopy, delCopy []pex.Peer
+		}
+		var queued []sentMsg
+		unchanged := func() string {
+			for _, q := range queued {
+				if fmt.Sprint(q.add) != fmt.Sprint(q.addCopy) || fmt.Sprint(q.del) != fmt.Sprint(q.delCopy) {
+					return fmt.Sprintf("a PEX message changed after it was handed to the writer: added %v -> %v, dropped %v -> %v", q.addCopy, q.add, q.delCopy, q.del)
+				}
+			}
+			return ""
+		}
 		for _, op := range hist {
 			switch op {
 			case "add-p":
@@ -203,6 +219,7 @@ func pexSearch(res *vh.Result) {
 					st.Unsend(add, del)
 					continue
 				}
+				queued = append(queued, sentMsg{add, del, append([]pex.Peer{}, add...), append([]pex.Peer{}, del...)})
 				name := func(x pex.Peer) string {
 					if x.Addr == p.Addr {
 						return "p"
@@ -222,6 +239,9 @@ func pexSearch(res *vh.Result) {
 					told[name(x)] = true
 				}
 			}
+		}
+		if u := unchanged(); u != "" {
+			return "", u
 		}
 		return st.Dump() + fmt.Sprint(told, current), ""
 	}
